@@ -502,12 +502,16 @@ class FunVal:
         self.ref = ref
 
 
-class Obj:
-    """Instance of an interpreted repo class."""
+_obj_counter = [0]
 
-    def __init__(self, cls, attrs=None):
+
+class Obj:
+    """Instance of an interpreted repo class; its attributes live in the state (st.objs[oid])."""
+
+    def __init__(self, cls):
+        _obj_counter[0] += 1
+        self.oid = _obj_counter[0]
         self.cls = cls
-        self.attrs = attrs if attrs is not None else {}
 
     def __repr__(self):
-        return 'Obj(%s)' % (self.cls,)
+        return 'Obj(%s#%d)' % (self.cls[1], self.oid)
